@@ -248,3 +248,65 @@ Proof.
   rewrite (parse_single jsx _ _ (elem_block jsx 0 e Hok Hj)).
   unfold convert. cbn [conv_list]. rewrite (conv_elem env 0 e _ Hok). cbn [bind app]. rewrite Htext. reflexivity.
 Qed.
+
+(* ================================================================ corollaries *)
+(* one attribute with a plainly written name, any value form *)
+Definition plain_attr_name (n : str) : Prop :=
+  n <> [] /\ forallb asafe n = true /\ last_is c_dot n = false /\ head_is c_excl n = false.
+
+Definition written_value (v : sval) : option (list vtok) :=
+  match v with
+  | SNone | SEmpty => None
+  | SUnq v => Some [VStr v]
+  | SQuo _ q => Some (payload_value q)
+  | SBrace e => Some (payload_value e)
+  end.
+Definition written_type (v : sval) : vtype :=
+  match v with
+  | SNone | SEmpty | SUnq _ => VRaw
+  | SQuo s _ => if s then VSingle else VDouble
+  | SBrace _ => VExpr
+  end.
+
+Theorem attr_value_literal jsx env mr (name n : str) (v : sval) :
+  word_ok name -> (jsx = false \/ head_upper name = false) -> plain_attr_name n -> sval_ok v ->
+  ce_text env = WNone ->
+  parse_abbr jsx env mr (name ++ c_lbrack :: n ++ val_text v ++ [c_rbrack]) =
+    Ok [ANode (Some name) None None
+              (Some [mkAAttr (Some n) (written_value v) (written_type v) false false false]) [] false].
+Proof.
+  intros Hname Hj [Hne [Hsafe [Hdot Hexcl]]] Hv Htext.
+  pose (a := mkSAttr false n false v).
+  pose (e := mkSElem name [PSet [a]]).
+  assert (Han : aname_text a = n) by (unfold aname_text, a; cbn; apply app_nil_r).
+  assert (Hok : selem_ok e).
+  { split; [exact Hname|]. constructor; [|constructor]. cbn [spart_ok]. constructor; [|constructor].
+    unfold sattr_ok. rewrite Han. cbn [sa_name sa_boolean sa_implied sa_value a]. repeat split; auto. }
+  pose proof (element_attributes_text jsx env mr e Hok Hj Htext) as H.
+  unfold elem_text, e in H. cbn [se_name se_parts parts_text part_text attrs_text] in H.
+  unfold attr_text in H. rewrite Han in H. cbn [sa_value a] in H.
+  rewrite app_nil_r in H. rewrite <- app_assoc in H. cbn [app] in H.
+  rewrite H. unfold elem_node, mentions. cbn [se_name se_parts flat_map part_mentions map app attrs_opt].
+  unfold attr_mention. cbn [sa_value sa_name sa_boolean sa_implied a].
+  destruct v; reflexivity.
+Qed.
+
+(* a payload without backslashes is its own value, character for character *)
+Lemma unescape_plain : forall s, forallb (fun c => negb (c =? c_bslash)%N) s = true -> unescape s = s.
+Proof.
+  induction s as [|c s IH]; [reflexivity|]. cbn [forallb unescape]. intros H.
+  apply andb_true_iff in H. destruct H as [Hc Hs]. apply negb_true_iff in Hc. rewrite Hc, IH by exact Hs. reflexivity.
+Qed.
+
+(* text between quotes without `\`, `$` and that quote: a quoted payload that is kept verbatim *)
+Definition qverbatim (q : char) (s : str) : bool :=
+  forallb (fun c => negb (c =? c_bslash)%N && negb (c =? c_dollar)%N && negb (c =? q)%N) s.
+
+Lemma qverbatim_payload q : forall s, qverbatim q s = true -> qpayload q s = true /\ unescape s = s.
+Proof.
+  induction s as [|c s IH]; [split; reflexivity|]. unfold qverbatim. cbn [forallb]. intros H.
+  apply andb_true_iff in H. destruct H as [Hc Hs]. apply andb_true_iff in Hc. destruct Hc as [Hc H3].
+  apply andb_true_iff in Hc. destruct Hc as [H1 H2].
+  apply negb_true_iff in H1. apply negb_true_iff in H2. apply negb_true_iff in H3.
+  destruct (IH Hs) as [Hp Hu]. cbn [qpayload unescape]. rewrite H1, H2, H3, Hu. cbn [orb]. split; [exact Hp|reflexivity].
+Qed.
